@@ -61,21 +61,28 @@ def build_dataset(ctx, case, via='function', index=0, upto=('classify', 'grid'))
     return sqlite3.connect(db), db, None
 
 
-def run_curve(connection, kind, reference_mm=None, db=None):
+def run_curve(connection, kind, reference_mm=None, db=None, verbosity=0):
     """rise / recession with the real code; via CLI when db is given.
-    Returns exception or None"""
+    verbosity 1-3: -v / -vv / -vvv with the log sent to a file (CLI); logging configured at
+    DEBUG by the caller when 3 (functions).  Returns exception or None"""
     import spowtd.recession as rec
     import spowtd.rise as rise
 
     if db is not None:
         argv = [kind, db] + (['-r', repr(float(reference_mm))] if reference_mm is not None else [])
+        if verbosity:
+            argv += ['-' + 'v' * verbosity, '--logfile', db + '.log']
         status, exc = data.cli(argv)
         if exc is None and status != 0:
             exc = RuntimeError('exit status {}'.format(status))
         return exc
     f = rec.find_recession_offsets if kind == 'recession' else rise.find_rise_offsets
     try:
-        f(connection, reference_mm)
+        if verbosity >= 3:
+            with data.library_logging('DEBUG'):
+                f(connection, reference_mm)
+        else:
+            f(connection, reference_mm)
     except Exception as exc:  # pylint: disable=broad-except
         connection.rollback()
         return exc
